@@ -455,13 +455,32 @@ func InjectAt(r *rng.R, p *Program, idx int) (Injection, bool) {
 					continue
 				}
 				g := f.Includes[r.Intn(len(f.Includes))]
-				name := []string{"rawIDL", "string"}[r.Intn(2)]
+				name := []string{"rawIDL", "string", "err"}[r.Intn(3)]
 				for _, h := range p.Files {
 					if h.Base() == name {
 						return "", false
 					}
 				}
 				g.Path = path.Join(path.Dir(g.Path), name+".thrift")
+				if name == "err" {
+					// the import is hidden by the err parameter of the response helpers, which
+					// mention the exceptions a function throws: let a function of f throw one of g
+					var exc *Def
+					for _, d := range g.Defs {
+						if d.Kind == Exception {
+							exc = d
+						}
+					}
+					if exc == nil {
+						exc = &Def{File: g, Name: "OopsInErr", Kind: Exception, Index: -1}
+						g.Defs = append(g.Defs, exc)
+					}
+					if len(f.Services) == 0 {
+						f.Services = append(f.Services, &Service{File: f, Name: "ThrowsErr"})
+					}
+					sv := f.Services[0]
+					sv.Funcs = append(sv.Funcs, &Func{Name: "throwsFromErr", Throws: []*Field{{ID: 1, Name: "oops", Req: Unspecified, Type: &Type{K: Named, Ref: exc}}}})
+				}
 				return "included file renamed to " + g.Path, true
 			}
 			return "", false
